@@ -87,6 +87,7 @@ type Script struct {
 	Driver string `json:"driver"`
 	Dir    string `json:"dir"`
 	Seed   int64  `json:"seed"`
+	TickMs int64  `json:"tick_ms"` // length of one unit of model time (default 1000: whole seconds)
 	Ops    []J    `json:"ops"`
 }
 
@@ -104,6 +105,9 @@ func runScript(scriptPath, tracePath string) {
 		fatal("%v", err)
 	}
 	defer tr.close()
+	if sc.TickMs > 0 {
+		tick = time.Duration(sc.TickMs) * time.Millisecond
+	}
 	w := &World{driver: sc.Driver, dir: sc.Dir, seed: sc.Seed, tr: tr}
 	w.names = newNames(sc.Seed)
 	w.clock = Clock{epoch: time.Now()}
@@ -127,7 +131,7 @@ func runScript(scriptPath, tracePath string) {
 			r = res(nil, nil)
 			t0 = 0
 		case name == "Sleep":
-			time.Sleep(time.Duration(num(op, "d")) * time.Second)
+			time.Sleep(time.Duration(num(op, "d")) * tick)
 			// the passing of time is logged by syncClock (agents' loops may have logged part of it already)
 			w.turn.Lock() // wait for keep-alives that are in flight at this instant
 			w.emu.Lock()
